@@ -462,7 +462,9 @@ func applyFault(t *core.Tape, f int, rec []byte, foreign func() []byte) []byte {
 		out := append([]byte(nil), b[:i]...)
 		k := 1 + t.Choose(3)
 		for j := 0; j < k; j++ {
-			out = append(out, []byte{' ', ' ', ' ', '\t', '_'}[t.Choose(5)])
+			// space, tab, underscore, the lone Latin-1 NBSP byte, and NBSP in UTF-8
+			bl := [...]string{" ", " ", " ", "\t", "_", "\xa0", "\u00a0"}[t.Choose(7)]
+			out = append(out, bl...)
 		}
 		return append(out, b[i:]...)
 	}
